@@ -69,6 +69,7 @@ class World:
         self.log = None
         self.calls = []            # every step-API call (top level or from inside work_fn): op, ret, before, after
         self.mark = None           # (view, len(acq_log)) at the latest callback of the running execute_operation
+        self.scripted_events = []  # terminations asked for by the scripted callbacks of the running execute_operation
         # created_at / phase_entered_at come from a default_factory bound at import: re-stamp
         orig_start = self.ctl.start_operation
 
@@ -97,6 +98,9 @@ class World:
             beh = "default"
             if self.script is not None and k < len(self.script["cp"]):
                 beh = self.script["cp"][k]
+            # what this evaluation of the checkpoint callback does before it answers
+            if self.script is not None and k < len(self.script.get("cpw", [])):
+                self._run_acts(self.script["cpw"][k])
             if beh == "raise":
                 if self.log is not None:
                     self.log.append([0, k, 0])
@@ -111,6 +115,21 @@ class World:
 
     def _mark(self):
         self.mark = (self.view(), len(self.acq_log))
+
+    def _run_acts(self, acts):
+        """Scripted body of a callback (work_fn or a checkpoint condition): probes and step-API calls."""
+        events = self.sys.watchdog.events
+        for act in acts:
+            if act[0] == "probe":
+                row = [2]
+                for r in self.res:
+                    l = self.ctl.resources[rname(r)]
+                    row += [onum(l.owner), l.hold_count]
+                self.log.append(row)
+            else:
+                e0 = len(events)
+                self.log.append([3] + self.fstep(act[1]))
+                self.scripted_events.extend(id(e) for e in events[e0:])
 
     # -- observations ------------------------------------------------------
     def locks(self):
@@ -145,6 +164,8 @@ class World:
                 "active": [onum(o) for o in self.ctl.active_operations.keys()],
                 "prio": {onum(o): c.priority for o, c in self.ctl.active_operations.items()},
                 "created": {onum(o): int((c.created_at - BASE).total_seconds()) for o, c in self.ctl.active_operations.items()},
+                "queues": {r: (onum(l.owner), l.hold_count, l.owner_priority, [(onum(o), p) for o, p in l.waiting_list])
+                           for r, l in self.locks().items()},
                 "edges": sorted((onum(w), onum(b), rnum(r)) for w, deps in g.items() for (b, r) in deps),
                 "cycle": None if d is None else [onum(a) for a in d.agents]}
 
@@ -207,7 +228,8 @@ class World:
     def exec_op(self, a):
         """-> (obs rows, info for the monitor)"""
         _, o, p, reqs, sc = a
-        if o in self.ever:
+        # a retry may re-use the id of an operation that has ended; never the id of a live one
+        if oname(o) in self.ctl.active_operations:
             return [[100, -1]], None
         self.ever.add(o)
         log = []
@@ -216,22 +238,12 @@ class World:
         self.mark = (self.view(), len(self.acq_log))
         events = self.sys.watchdog.events
         ev_from = len(events)
-        scripted_events = []       # terminations caused by the scripted work function itself
+        scripted_events = self.scripted_events = []   # terminations caused by the scripted callbacks themselves
 
         def work_fn():
             log.append([1])
             info["entry"] = self.view()
-            for act in sc["work"]:
-                if act[0] == "probe":
-                    row = [2]
-                    for r in self.res:
-                        l = self.ctl.resources[rname(r)]
-                        row += [onum(l.owner), l.hold_count]
-                    log.append(row)
-                else:
-                    e0 = len(events)
-                    log.append([3] + self.fstep(act[1]))
-                    scripted_events.extend(id(e) for e in events[e0:])
+            self._run_acts(sc["work"])
             if sc["raises"]:
                 log.append([5])
                 self._mark()
@@ -326,9 +338,27 @@ CPO = {"default": "CpDefault", "false": "CpFalse", "raise": "CpRaise"}
 VFN = {"none": "VNone", "true": "VTrue", "false": "VFalse", "raise": "VRaise"}
 
 
+def coq_cact(x):
+    """Checkpoint callbacks: the termination alphabet only (kill / watchdog pass / shutdown / time / probe)."""
+    if x[0] == "probe":
+        return "CProbe"
+    a = x[1]
+    if a[0] == "kill":
+        return f"(CKill {cz(a[1])})"
+    if a[0] == "wd":
+        return "CWatchdog"
+    if a[0] == "shutdown":
+        return "CShutdown"
+    if a[0] == "tick":
+        return f"(CTick {cz(a[1])})"
+    raise ValueError(f"not a checkpoint-callback action: {x}")
+
+
 def coq_script(sc):
     work = clist(["WProbe" if x[0] == "probe" else f"(WDo {coq_fop(x[1])})" for x in sc["work"]])
-    return f"(mkScript {clist([CPO[c] for c in sc['cp']])} {work} {cbool(sc['raises'])} {VFN[sc['validate']]})"
+    cpw = clist([clist([coq_cact(x) for x in acts]) for acts in sc.get("cpw", [])])
+    return (f"(mkScript {clist([CPO[c] for c in sc['cp']])} {cpw} {work} {cbool(sc['raises'])} "
+            f"{VFN[sc['validate']]})")
 
 
 def coq_op(a):
@@ -346,8 +376,9 @@ def coq_res(res):
     return clist([ctuple(cz(r), cbool(p)) for r, p in res])
 
 
-def plain_script(cp=(), work=(), raises=False, validate="none"):
-    return {"cp": list(cp), "work": [list(x) for x in work], "raises": raises, "validate": validate}
+def plain_script(cp=(), work=(), raises=False, validate="none", cpw=()):
+    return {"cp": list(cp), "cpw": [[list(x) for x in acts] for acts in cpw],
+            "work": [list(x) for x in work], "raises": raises, "validate": validate}
 
 
 NOW = {"strategy": "priority"}
@@ -380,26 +411,40 @@ class C14(Check):
             "request list of 1..3 entries (repeats, unregistered ids, entries held by others) x priorities x one injected fault "
             "(k-th acquisition blocked by the pre-held state, checkpoint k false/raising for k=0..3, work raising, validate "
             "false/raising) and a scripted work_fn (ownership probes; nested acquire by a higher-priority operation = preemption; "
-            "kill/abort/release of itself; watchdog.execute; shutdown; clock ticks), followed by kill / watchdog.execute (timeouts "
-            "and deadlock victims) / shutdown / further execute_operation calls; exhaustive part: every request list of length "
+            "kill/abort/release of itself; watchdog.execute; shutdown; clock ticks) and scripted CHECKPOINT callbacks (before its "
+            "verdict the k-th checkpoint evaluation, k=0..3, kills the executing or another operation, runs watchdog.execute - "
+            "with expired time-outs -, shuts the system down or lets time pass), followed by kill / watchdog.execute (timeouts "
+            "and deadlock victims) / shutdown / further execute_operation calls, also under the id of an operation that has ended "
+            "(retry); contention histories: a holder, waiters queued through the step API and through blocked execute_operation "
+            "calls (waiting_list entries of live, ended and later-owning operations), the holder lets go, survivors obtain the "
+            "lock and end in each of the five ways; exhaustive part: every request list of length "
             "<=2 (quick) / <=3 (thorough) over 3 resources x 13 fault positions x 4 pre-held configurations with a follow-up "
-            "operation and shutdown. non-trivial = some fault, repeat, pre-held resource or scripted work; distinct by content")
+            "operation and shutdown; termination from inside checkpoint callback k x 6 ways x 5 request lists x faults; queue "
+            "shapes x priorities x which waiter ended x how the holder let go x 5 endings; blocked-then-retried ids x 13 faults. "
+            "non-trivial = some fault, repeat, pre-held resource or scripted callback; distinct by content")
     LEVEL_TEXT = ("Coq theorems, for every well-formed controller state (an invariant proved to be preserved by every operation, so every "
-                  "reachable state), every request list, priority, fault script and scripted work function: after execute_operation of a "
-                  "fresh id nothing is owned by it and it is not active; resources it never obtained keep owner/hold_count/priority; "
-                  "work_fn is invoked at most once and then the operation owns every requested resource; validation only after work "
+                  "reachable state), every request list, priority, fault script, scripted work function and scripted checkpoint callbacks "
+                  "(manual kill of any operation incl. the executing one, watchdog pass, shutdown, time passing): after "
+                  "execute_operation of an id that is not live (fresh, or of an operation that has ended) nothing is owned by it "
+                  "and it is not active; resources it never obtained keep owner/hold_count/priority; "
+                  "work_fn is invoked at most once and then the operation is active and owns every requested resource (an operation "
+                  "ended while a checkpoint callback ran never runs its work); validation only after work "
                   "returned; success iff work and validation succeeded (and the checkpoints passed); the same no-leak statement for "
                   "complete/abort/manual kill/watchdog.execute/shutdown and, as an invariant, every owner is an active operation. The "
                   "model is tied to the code by running both on the same generated histories (model evaluated by vm_compute).")
-    LEVEL_NOTE = ("Trusts: Coq kernel+VM; the correspondence harness; ids are fresh per operation (driver-enforced, as in the property's "
-                  "reading); single-threaded calls; priority inheritance (priority.py) not modelled. Axioms: none.")
+    LEVEL_NOTE = ("Trusts: Coq kernel+VM; the correspondence harness; an operation id is never that of a live operation (driver-enforced; "
+                  "execute_operation may re-use the id of an ended one); single-threaded calls; checkpoint callbacks restricted to the "
+                  "termination alphabet (kill / watchdog / shutdown / time); priority inheritance (priority.py) not modelled. Axioms: none.")
     TECHNIQUE = "Coq proof of a state invariant + per-call postconditions; vm_compute correspondence against operon_ai.coordination"
     TRUSTED = ["modelled not verified: operation/resource ids are integers; OperationContext objects are identified with their (fresh) "
                "operation id; the clock is virtual and moves only by explicit ticks; callbacks are scripts",
                "harness instrumentation: start_operation re-stamps created_at/phase_entered_at from the virtual clock; the default "
-               "checkpoint conditions are wrapped (logging + injected faults); acquire_resource results are logged",
+               "checkpoint conditions are wrapped (logging + injected faults + scripted callback bodies); acquire_resource results are logged",
                "PriorityInheritance.check_and_boost / run_maintenance are not modelled"]
-    ASSUMPTIONS = ["operation ids are fresh per operation (an id is never re-used, even after the operation ended)",
+    ASSUMPTIONS = ["an operation is never started under the id of a LIVE operation; start_operation (step API) ids are fresh; "
+                   "execute_operation may re-use the id of an operation that has ended, but not from inside a callback of that id",
+                   "checkpoint callbacks end operations / let time pass (kill, watchdog.execute, shutdown, tick) and inspect locks; "
+                   "they do not acquire or release resources themselves",
                    "resources are registered before the history starts and never re-registered",
                    "calls are sequential (no concurrent threads inside the controller)"]
 
@@ -426,9 +471,30 @@ class C14(Check):
             return ["shutdown"]
         return ["tick", rng.choice([1, 2, 5])]
 
+    def _rand_cacts(self, rng, me, ops_pool):
+        """Body of a checkpoint callback: the operation (or another one) is ended from outside while it runs."""
+        out = []
+        for _ in range(rng.choice([1, 1, 1, 2, 3])):
+            k = rng.random()
+            if k < 0.3:
+                out.append(["do", ["kill", me]])
+            elif k < 0.45:
+                out.append(["do", ["kill", rng.choice(ops_pool)]])
+            elif k < 0.6:
+                out.append(["do", ["shutdown"]])
+            elif k < 0.75:
+                out.append(["do", ["wd"]])
+            elif k < 0.9:
+                out.append(["do", ["tick", rng.choice([1, 2, 5])]])
+            else:
+                out.append(["probe"])
+        return out
+
     def _rand_script(self, rng, me, ops_pool, res_pool):
         name, sc = rng.choice(FAULTS)
-        sc = {**sc, "cp": list(sc["cp"]), "work": []}
+        sc = {**sc, "cp": list(sc["cp"]), "cpw": [], "work": []}
+        if rng.random() < 0.3:
+            sc["cpw"] = [self._rand_cacts(rng, me, ops_pool) if rng.random() < 0.45 else [] for _ in range(rng.randint(1, 4))]
         if rng.random() < 0.25:
             sc["cp"] = [rng.choice(["default", "default", "false", "raise"]) for _ in range(rng.randint(1, 4))]
         n = rng.choice([0, 0, 1, 2, 3, 4])
@@ -439,6 +505,43 @@ class C14(Check):
                 a = self._rand_fop(rng, ops_pool + [me, me], res_pool)
                 sc["work"].append(["do", a])
         return sc
+
+    def _rand_queue(self, rng, res, res_pool):
+        r = res[0][0]
+        ph = rng.choice([0, 1, 5])
+        ops = [["start", 1, ph, False], ["acq", 1, r]]
+        if rng.random() < 0.3:
+            ops.append(["acq", 1, r])
+        waiters, execs = [], []
+        for o in rng.sample([2, 3, 4, 5], rng.choice([2, 2, 3, 4])):
+            p = rng.choice([0, 1, ph, ph, ph + 1, 5, 7])
+            if rng.random() < 0.5:
+                ops += [["start", o, p, False], ["acq", o, r]]
+                waiters.append(o)
+            else:
+                reqs = [rng.choice(res_pool)] if rng.random() < 0.3 else []
+                ops.append(["exec", o, p, reqs + [r], self._rand_script(rng, o, [1, 2, 3, 4, 5], res_pool)
+                            if rng.random() < 0.2 else plain_script(work=[["probe"]])])
+                execs.append((o, p))
+        for o in waiters:
+            if rng.random() < 0.35:
+                ops.append([rng.choice(["kill", "abort", "complete"]), o])
+        ops.append(rng.choice([["rel", 1, r], ["rel", 1, r], ["complete", 1], ["kill", 1], ["abort", 1], ["wd"], ["tick", 1]]))
+        if rng.random() < 0.3:
+            ops.append(["rel", 1, r])
+        tail = [["acq", o, r] for o in waiters] + \
+               [["exec", o, p + rng.choice([0, 0, 1]), [r] * rng.choice([1, 1, 2]),
+                 self._rand_script(rng, o, [1, 2, 3, 4, 5], res_pool) if rng.random() < 0.4 else plain_script(validate="true")]
+                for o, p in execs]
+        rng.shuffle(tail)
+        ops += tail
+        for o in waiters:
+            if rng.random() < 0.7:
+                ops.append(rng.choice([["complete", o], ["abort", o], ["kill", o], ["rel", o, r], ["wd"]]))
+        ops.append(["exec", 6, rng.choice([0, 9]), [r], plain_script(work=[["probe"]])])
+        if rng.random() < 0.5:
+            ops.append(["shutdown"])
+        return ops
 
     def gen_cases(self, rng, n):
         out = []
@@ -473,6 +576,11 @@ class C14(Check):
                                   validate=rng.choice(["none", "true"]))
                 ops.append(["exec", 3, rng.choice([0, 5]), [rng.choice(res_pool) for _ in range(rng.choice([1, 2]))], sc])
                 ops.append(["wd"])
+            elif mode < 0.5:
+                # contention for one resource: a holder, queued waiters (step API and blocked execute_operation calls,
+                # which leave their id in the waiting list), some waiters end, the holder lets go, survivors retry
+                # (execute_operation re-using the id that was blocked before), everybody ends in some way
+                ops = self._rand_queue(rng, res, res_pool)
             for _ in range(rng.randint(1, 9) if not ops else rng.randint(0, 3)):
                 if rng.random() < 0.3:
                     me = rng.choice(ops_pool)
@@ -542,6 +650,83 @@ class C14(Check):
                     if caller_first:
                         ops = [["start", 6, 0, False], ["acq", 6, 1]] + ops
                     out.append({"res": pres, "w": {"strategy": "priority", **wt}, "ops": ops})
+        out += self._callback_termination_cases()
+        out += self._queue_cases()
+        return out
+
+    def _callback_termination_cases(self):
+        """The operation (or the holder of what it wants) is ended from outside - manual kill, a watchdog pass with an
+        expired time-out, shutdown - while its k-th checkpoint callback runs (k = 0: before the acquisition loop,
+        1: between acquisition and work, 2: after work, 3: after validation), combined with every other fault."""
+        res = [[1, False], [2, True], [3, True]]
+        names = None if self.tier != "quick" else {"none", "validate-true", "work-raise", "validate-raise", "cp1-false", "cp3-false"}
+        faults = [(n, sc) for n, sc in FAULTS if names is None or n in names]
+        variants = [
+            (dict(NOW), [["do", ["kill", 1]]]),
+            (dict(NOW), [["probe"], ["do", ["kill", 5]], ["probe"]]),
+            (dict(NOW), [["do", ["shutdown"]]]),
+            ({"strategy": "priority", "max": 2}, [["do", ["tick", 3]], ["do", ["wd"]]]),      # total-time limit: everybody overdue
+            ({"strategy": "priority", "progress": 1}, [["do", ["tick", 2]], ["do", ["wd"]], ["probe"]]),  # only an operation in S
+            ({"strategy": "priority", "starve": 1}, [["do", ["tick", 2]], ["do", ["wd"]]]),
+        ]
+        out = []
+        for k in range(4):
+            for w, acts in variants:
+                for reqs in ([1], [1, 1], [2, 1], [2, 2, 1], [3, 1]):
+                    for _name, sc in faults:
+                        cpw = [[] for _ in range(k)] + [acts]
+                        sc1 = {**sc, "cpw": cpw, "work": [["probe"]]}
+                        ops = [["start", 5, 9, False], ["acq", 5, 3],
+                               ["exec", 1, 3, list(reqs), sc1],
+                               ["exec", 2, 4, list(reqs), plain_script(work=[["probe"]])],
+                               ["complete", 5], ["shutdown"]]
+                        out.append({"res": res, "w": w, "ops": ops})
+        return out
+
+    def _queue_cases(self):
+        """State carried by ResourceLock.waiting_list across calls: waiters (alive, ended, or the later owner itself)
+        stay queued; then the holder lets go, survivors obtain the lock and end in each of the five ways; blocked
+        execute_operation calls are retried under the same id."""
+        out = []
+        ends = [["complete"], ["abort"], ["kill"], ["wd"], ["shutdown"]]
+        for pre in (False, True):
+            res = [[1, pre], [2, False]]
+            for pa, pb in ((5, 0), (0, 5), (1, 1)):
+                for dead in (None, 2, 3):
+                    for hend in (["rel", 1, 1], ["complete", 1], ["kill", 1]):
+                        for end in ends:
+                            w = {"strategy": "priority", "max": 2}
+                            ops = [["start", 1, 1, False], ["acq", 1, 1],
+                                   ["start", 2, pa, False], ["acq", 2, 1], ["start", 3, pb, False], ["acq", 3, 1]]
+                            if dead is not None:
+                                ops.append(["kill", dead])
+                            ops.append(hend)
+                            alive = [o for o in (2, 3) if o != dead]
+                            ops += [["acq", o, 1] for o in alive]
+                            ops.append(["tick", 3])
+                            for o in alive:
+                                ops.append(end + [o] if end[0] in ("complete", "abort", "kill") else list(end))
+                            ops += [["exec", 4, 0, [1], plain_script(work=[["probe"]])], ["shutdown"]]
+                            out.append({"res": res, "w": w, "ops": ops})
+            # blocked execute_operation calls retried under the same id after the holder ended
+            for pp, pj in ((2, 1), (1, 2), (1, 1)):
+                for hend in (["kill", 1], ["complete", 1], ["rel", 1, 1]):
+                    for _name, sc in FAULTS:
+                        sc1 = {**sc, "work": [["probe"]]}
+                        ops = [["start", 1, 5, False], ["acq", 1, 1],
+                               ["exec", 2, pp, [2, 1], plain_script()], ["exec", 3, pj, [1], plain_script()],
+                               hend,
+                               ["exec", 3, pj, [1], sc1], ["exec", 4, 9, [1], plain_script(work=[["probe"]])],
+                               ["exec", 2, pp, [1, 2, 1], sc1], ["shutdown"]]
+                        out.append({"res": res, "w": dict(NOW), "ops": ops})
+        # ... and retried one priority higher against a preemptable resource (blocked at equal priority first)
+        for _name, sc in FAULTS:
+            for reqs in ([1], [1, 1]):
+                sc1 = {**sc, "work": [["probe"]]}
+                ops = [["start", 1, 5, False], ["acq", 1, 1], ["exec", 2, 5, [1], plain_script()],
+                       ["exec", 2, 6, list(reqs), sc1], ["exec", 3, 9, [1], plain_script(work=[["probe"]])],
+                       ["complete", 1], ["shutdown"]]
+                out.append({"res": [[1, True], [2, False]], "w": dict(NOW), "ops": ops})
         return out
 
     # -- implementation ----------------------------------------------------
@@ -624,7 +809,7 @@ class C14(Check):
                     return Violation("C14/success-mismatch", f"step {i}: success={info['success']} but log {log}")
                 # resources never obtained by this operation (and not touched by its scripted work) are untouched
                 obtained = {r for (oo, r, res) in info["acqs"] if oo == o and res != 1}
-                scripted = any(x[0] == "do" for x in sc["work"])
+                scripted = any(x[0] == "do" for x in sc["work"]) or any(x[0] == "do" for acts in sc.get("cpw", []) for x in acts)
                 if not scripted:
                     for r, v in before["owners"].items():
                         if r not in obtained and owners[r] != v:
@@ -643,7 +828,7 @@ class C14(Check):
         for a in case["ops"]:
             if a[0] == "exec":
                 sc = a[4]
-                if sc["cp"] or sc["work"] or sc["raises"] or sc["validate"] != "none" or len(set(a[3])) < len(a[3]):
+                if sc["cp"] or sc.get("cpw") or sc["work"] or sc["raises"] or sc["validate"] != "none" or len(set(a[3])) < len(a[3]):
                     return True
         return any(a[0] in ("kill", "wd", "shutdown") for a in case["ops"])
 
@@ -651,12 +836,25 @@ class C14(Check):
         ks = []
         if not isinstance(steps, list):
             return ["error"]
+        used = set()
         for st in steps:
             a = st["op"]
             ks.append("op=" + a[0])
+            if a[0] in ("start", "exec"):
+                if a[0] == "exec" and st["info"] and a[1] in used:
+                    ks.append("exec-reuses-ended-id")
+                used.add(a[1])
+            if any(l[0] != -1 and any(w == l[0] for w, _p in l[3]) for l in st["after"].get("queues", {}).values()):
+                ks.append("owner-has-stale-queue-entry")
             if a[0] == "exec" and st["info"]:
                 info = st["info"]
                 ks.append("exec-success" if info["success"] else "exec-failed")
+                for k, acts in enumerate(a[4].get("cpw", [])):
+                    for x in acts:
+                        if x[0] == "do":
+                            ks.append(f"cb{k}-" + x[1][0] + ("-self" if x[1][0] == "kill" and x[1][1] == a[1] else ""))
+                if info["entry"] is None and [0, 1, 1] in info["log"] and not any(e[0] == 1 for e in info["log"]):
+                    ks.append("terminated-before-work")
                 if len(set(a[3])) < len(a[3]):
                     ks.append("exec-repeated-request")
                 for (_o, _r, res) in info["acqs"]:
